@@ -5,6 +5,7 @@ use crate::util::{Rng, Stats};
 
 pub mod finalstage;
 pub mod param;
+pub mod srate;
 pub mod system;
 pub mod units;
 
@@ -17,6 +18,7 @@ pub fn gen(suite: &str, rng: &mut Rng, n: usize, thorough: bool, stats: &mut Sta
 	match suite {
 		"units" => units::gen(rng, n, thorough, stats),
 		"param" => param::gen(rng, n, thorough, stats),
+		"srate" => srate::gen(rng, n, thorough, stats),
 		"final" => finalstage::gen(rng, n, thorough, stats),
 		"system" => system::gen(rng, n, thorough, stats),
 		_ => panic!("unknown suite {}", suite),
@@ -27,6 +29,7 @@ pub fn run(suite: &str, ops: &[String]) -> Vec<String> {
 	match suite {
 		"units" => units::run(ops),
 		"param" => param::run(ops),
+		"srate" => srate::run(ops),
 		"final" => finalstage::run(ops),
 		"system" => system::run(ops),
 		_ => panic!("unknown suite {}", suite),
